@@ -12,10 +12,10 @@ def walk(t, v, fn, path=()):
     k = t['k']
     if v is None:
         return
-    if k == 'seqof':
+    if k in ('seqof', 'setof'):
         for i, e in enumerate(v):
             walk(t['elem'], e, fn, path + (i,))
-    elif k == 'seq':
+    elif k in ('seq', 'set'):
         for m in t['root'] + (t['ext'] or []):
             if m['name'] in v:
                 walk(m['t'], v[m['name']], fn, path + (m['name'],))
